@@ -153,6 +153,7 @@ type condLockInfo struct {
 	path  string
 	from  token.Pos
 	to    token.Pos
+	guard bool // written as `if !param { ...; return }` before the Lock: the lock is held inside the guard only
 }
 
 func exprPath(e ast.Expr) string {
@@ -473,7 +474,13 @@ func (w *walker) stmt(s ast.Stmt, h held) held {
 		h = w.stmt(x.Init, h)
 		w.expr(x.Cond, h, ctxRead)
 		// conditional locking on a bool parameter (checked annotation)
-		if ci, ok := condLock[w.fn.obj]; ok && (x.Pos() == ci.from || x.Pos() == ci.to) {
+		if ci, ok := condLock[w.fn.obj]; ok && ci.guard && x.Pos() == ci.from {
+			hb := h.clone()
+			hb[ci.path] = lockHeld{ci.path, "W", "annotation:cond-lock"}
+			w.stmts(x.Body.List, hb)
+			return h
+		}
+		if ci, ok := condLock[w.fn.obj]; ok && !ci.guard && (x.Pos() == ci.from || x.Pos() == ci.to) {
 			h = h.clone()
 			if x.Pos() == ci.from {
 				h[ci.path] = lockHeld{ci.path, "W", "annotation:cond-lock"}
